@@ -142,9 +142,10 @@ theorem truedivLI_total {a : LinComb} {c : Int} (hg : s.guard = none) (hP : Prim
   have hm' : (Py.mod a.value c == 0) = true := by simp [Py.mod, hm]
   simp only [h0, Bool.false_eq_true, if_false, isGuard_of_none hg, Bool.true_and, hm', if_true, e, hy]
 
-theorem rshiftLI_total {a : LinComb} {n : Int} (hg : s.guard = none) (h0 : 0 ≤ a.value)
+theorem rshiftLI_total {a : LinComb} {n : Int} (hn : 0 ≤ n) (hg : s.guard = none) (h0 : 0 ≤ a.value)
     (hb : a.value < 2 ^ s.bitlength) : Ok (rshiftLI a n) s := by
   unfold rshiftLI
+  simp only [not_lt.mpr hn, if_false]
   obtain ⟨rs, s1, h1, -⟩ := toBits_total (x := a) (bits := none) hg h0 (bitLength_le_of_lt h0 hb)
   exact Ok.bind h1 (Ok.pure _ _)
 
